@@ -2,7 +2,7 @@ import Tbx.Proofs.FlowCount
 import Tbx.Proofs.FlowDinicBfsSound
 /-
 Termination part 1 for the Dinic model: `bfs()` returns within the fuel `n + 1`, and when it returns
-`true` the labels admit a path source → target all of whose edges satisfy the level test of `dfs`
+`true` the labels allow a path source → target all of whose edges satisfy the level test of `dfs`
 (`level[u] >= level[v]`, capacity ≠ 0).
 -/
 namespace Tbx.Flow
